@@ -41,6 +41,8 @@ inline void furnishFile(nix::File &f) {
     nix::MultiTag mt = b.createMultiTag("zz_mtag", "t", pos);
     mt.addReference(a2);
     mt.createFeature(a1, nix::LinkType::Indexed);
+    b.createMultiTag("zz_mtag_bare", "t", pos); // no references, no features, no extents
+    b.createTag("zz_tag_bare", "t", {0.0});
     nix::Group g = b.createGroup("zz_group", "t");
     g.addDataArray(a2);
     g.addTag(tg);
